@@ -12,3 +12,4 @@ pub mod plan;
 pub mod faults;
 pub mod seeds;
 pub mod trap;
+pub mod strmap;
